@@ -127,6 +127,8 @@ type Enc struct {
 
 	ordCache       map[ssa.Instruction]int
 	usedContracts  map[string]bool
+	arbParams      map[*ssa.Parameter]bool // parameters of inlined helpers that receive an arbitrary user value
+	usedKeys       map[string]bool // contract keys of the module functions called by contract
 	extra          []Term
 	blockGuard     Term
 	deferCallee    map[*ssa.Defer]Term
